@@ -1160,10 +1160,29 @@ def check_C17(tier, seed):
         c.eval('(let ((all t)) (dolist (x s) (let ((found nil)) (dolist (y l) (if (eq x y) (setq found t))) (if found nil (setq all nil)))) (list all (length s) (equal (prin1-to-string l) before)))')
         c.meta = {'n': n, 'mode': mode, 'elements': ek}
         idcases.append(c)
+    # elements that `equal` does not tell apart (an integer and the float of the same value, hash tables, lambdas) but the
+    # predicate does: the predicate decides, whatever equal says
+    eqcases = []
+    for j, (text_, want_) in enumerate([
+            ("(sort '(1 1.0 1 1.0 2.0 2 1.0 1 3 3.0) (lambda (a b) (< (if (floatp a) 0 1) (if (floatp b) 0 1))))", '(1.0 1.0 2.0 1.0 3.0 1 1 2 1 3)'),
+            ("(let ((hs (mapcar (lambda (k) (let ((h (make-hash-table))) (puthash 'k k h) h)) '(3 1 2 0 5 4 7 6)))) (mapcar (lambda (h) (gethash 'k h)) (sort hs (lambda (a b) (< (gethash 'k a) (gethash 'k b))))))", '(0 1 2 3 4 5 6 7)'),
+            ("(let ((fs (mapcar (lambda (k) (let ((kk k)) (lambda () kk))) '(4 2 6 0 3 1 5)))) (mapcar 'funcall (sort fs (lambda (a b) (< (funcall a) (funcall b))))))", '(0 1 2 3 4 5 6)'),
+            ("(sort '(2 2.0 1.0 1 2 1.0) (lambda (a b) (and (integerp a) (floatp b))))", '(2 1 2 2.0 1.0 1.0)')]):
+        c = Case('eqv%d' % j); c.eval(text_); c.meta = {'want': want_, 'text': text_}; eqcases.append(c)
+    eqout = core.run_side(core.TLIMPL_DEBUG, eqcases, announce=True)
     idout = core.run_side(core.TLIMPL_DEBUG, idcases, announce=True)
     rows = run_exprs(res, items, per_case=10)
     nv = 0
     distinct = set()
+    for c in eqcases:
+        ls = eqout.get(c.cid, [])
+        res.cov['evaluations'] += 1
+        got = None
+        if ls:
+            _, kind_, payload_, _ = core.parse_line(ls[-1]); got = unhx(payload_) if kind_ == 'V' else kind_
+        if got != c.meta['want']:
+            nv += 1
+            if nv <= 8: res.violation('sort', {'program': c.meta['text'], 'expected': c.meta['want'], 'got': got, 'why': 'elements that equal conflates are not ordered (stably) by the predicate'})
     for c in idcases:
         ls = idout.get(c.cid, [])
         res.cov['evaluations'] += 1
@@ -1429,6 +1448,11 @@ def check_C14(tier, seed):
                       ("(let* ((l (list 1 2 3 4)) (a (cons 'x (cdr l))) (b (cons 'y (cdr l)))) (list (equal a b) (equal (cons 0 a) (cons 0 b)) (equal a (cons 'x (cdr l))) (equal (cdr a) (cdr b)) (equal l (cons 1 (cdr l)))))", '(nil nil t t t)'),
                       ("(let ((tail '(z))) (list (equal (list 'a (cons 1 tail) 'b) (list 'a (cons 2 tail) 'b)) (equal (cons (cons 1 tail) tail) (cons (cons 2 tail) tail)) (equal (cons \"s\" tail) (cons \"t\" tail)) (equal (cons 1.5 tail) (cons 1.5 tail))))", '(nil nil nil t)')]:
         add(body, exp, 'shared-tail')
+    # integer keys are keys by value: a computed integer finds the entry stored under a literal, and overwrites it
+    for body, exp in [("(let ((h (make-hash-table))) (dotimes (i 5) (puthash i (* i i) h)) (puthash (+ 1 1) 'two h) (list (gethash 0 h) (gethash 1 h) (gethash 2 h) (gethash (- 5 1) h) (gethash 9 h)))", '(0 1 two 16 nil)'),
+                      ("(let ((h (make-hash-table)) (n 3)) (puthash 3 'lit h) (puthash n 'var h) (puthash (+ 1 2) 'sum h) (puthash 3.0 'flt h) (list (gethash 3 h) (gethash (* 1 3) h) (gethash 3.0 h) (gethash (/ 6.0 2) h)))", '(sum sum flt flt)'),
+                      ("(let ((h (make-hash-table))) (puthash -9223372036854775808 'min h) (puthash (- -9223372036854775807 1) 'min2 h) (list (gethash -9223372036854775808 h) (gethash (1+ 9223372036854775806) h)))", '(min2 nil)')]:
+        add(body, exp, 'computed-integer-key')
     pairs = list(itertools.product(atoms, atoms))
     for _ in range(tier_n(tier, 1500, 40000)):
         a = rng.choice(vals); b = mutate(a) if rng.random() < 0.6 else rng.choice(vals)
@@ -2648,6 +2672,10 @@ def check_C11(tier, seed):
                   "(let ((tmpl '((n acc) (let ((m (- n 1))) (cond ((< m 0) acc) (t (cdl m (+ acc 2)))))))) (eval (cons 'defun (cons 'cdl tmpl))) (list tmpl (cdl 2 0)))",
                   "(let ((tmpl '((n) (cde (- n 1))))) (eval (cons 'defun (cons 'cdx tmpl))) (eval (cons 'defun (cons 'cde (list '(n) (list 'if '(< n 1) ''done (cons 'cde (cdr (cadr tmpl)))))))) (list tmpl (cde 2)))",
                   "(let ((body '(when (> n 0) (wtl (- n 1))))) (eval (list 'defun 'wtl '(n) body)) (list body (wtl 2)))",
+                  # numbers are values: a nested one-operand call of the same operator hands back a number that lives elsewhere
+                  "(let ((xs (list 4 5 6))) (list (+ (+ (car xs)) 10) (+ (+ (car xs)) 10) xs))", "(list (* (* 3) 2) (* (* 3) 2) 3 (+ (+ 3) 1))",
+                  "(let ((v 7)) (list (max (max v) 1) (min (min v) 100) (+ (+ v) v) v))", "(let ((al '((a . 1) (b . 2)))) (list (+ (+ (cdr (car al))) 5) (* (* (cdr (cadr al))) 5) al))",
+                  "(progn (defmacro sum7 (&rest amounts) `(+ (+ ,@amounts) 7)) (let ((q 1)) (list (sum7 q) (sum7 q) q)))",
                   # one call form evaluated while its head variable is bound to different functions (parameter, loop variable,
                   # let variable, a consed form handed to eval around a redefinition): evaluation leaves nothing behind in the form
                   "(progn (defun apply-to (f x) (f x)) (list (apply-to (lambda (v) (+ v 1)) 10) (apply-to (lambda (v) (* v 2)) 10) (apply-to 'car '(7))))",
